@@ -24,6 +24,19 @@ pub fn poison(c: &mut Case) {
         let _ = c.lib("poison: arc::from_bytes (unterminated)", || arc::from_bytes(&crate::monitor::tight(&img)).is_ok());
         let _ = c.lib("poison: TextArchive::from_bytes (unterminated)", || TextArchive::from_bytes(&crate::monitor::tight(&img), TextArchiveFormat::ShiftJIS, en).is_ok());
     }
+    // 1b. UTF-16 text archive whose last message runs to the end of the data region (some units
+    // already consumed when the reader gives up); a string pointer into such data, too
+    if !cfg!(miri) {
+        for be in [false, true] {
+            let mut a = RefArchive::new(be);
+            a.data = vec![b't', 0, 0, 0];
+            a.data.extend_from_slice(&[b'l', 0, b'e', 0, b'f', 0, b't', 0, 0x42, 0x30, b'o', 0]);
+            a.labels.insert(4, vec!["MID_LEFTOVER".to_string()]);
+            let img = image::write_canonical(&a, None);
+            let en = if be { Endian::Big } else { Endian::Little };
+            let _ = c.lib("poison: TextArchive::from_bytes (UTF-16, unterminated)", || TextArchive::from_bytes(&crate::monitor::tight(&img), TextArchiveFormat::Unicode, en).is_ok());
+        }
+    }
     // 2. pack archive whose name runs to the end of the buffer
     let mut p = b"pack\0\x01\0\0".to_vec();
     p.extend_from_slice(&[0, 0, 0, 0]);
